@@ -191,7 +191,10 @@ func (d *disconnectHandler) handleGracePeriodExpired() {
 	defer d.mu.Unlock()
 
 	if d.election.connectionMonitor != nil {
-		if d.election.connectionMonitor.Status() != ConnectionStatusDisconnected {
+		// only a reconnect in the meantime keeps the leader; a connection that was closed
+		// while disconnected is still lost
+		status := d.election.connectionMonitor.Status()
+		if status != ConnectionStatusDisconnected && status != ConnectionStatusClosed {
 			// Reconnected, don't demote
 			log := d.election.getLogger()
 			log.Info("connection_reconnected_before_grace_period",
